@@ -611,6 +611,12 @@ func RunLayer(p Params, acts []Act, concurrent bool) LayerTrace {
 				start()
 				tr.Applied[i] = true
 			}
+		case "stale": // the transfer timeout passes on the client while the request is still waiting; no sweep has run: what the
+			// client holds of the response sits in its cache, expired
+			if rcv, _ := cli.VerifSizes(); rcv > 0 {
+				cli.VerifAge(4 * time.Second)
+				tr.Applied[i], tr.Faulty = true, true
+			}
 		case "lose": // the server's buffers time out (transfer timeout 3 s)
 			if rcv, snd := srv.VerifSizes(); rcv+snd > 0 {
 				srv.CheckExpirations(time.Now().Add(4 * time.Second))
